@@ -67,6 +67,36 @@ fn main() {
             println!("RESULT json-number {v:e} -> {j} -> {back:?} same={same}");
             if !same { std::process::exit(3); }
         }
+        // ---- C06: RFC 3339 text -> DateTime keeps the instant (or is rejected); exit 3 = different instant
+        "rfc3339" => {
+            let text = &args[2];
+            let want = chrono::DateTime::parse_from_rfc3339(text).expect("chrono accepts the text");
+            match DateTime::parse_from_rfc3339(text) {
+                Ok(d) => {
+                    let got = chrono::DateTime::parse_from_rfc3339(&d.to_rfc3339()).expect("re-parse");
+                    println!("RESULT rfc3339 {text} -> {} (instant {} vs {})", d.to_rfc3339(), got.timestamp_millis(), want.timestamp_millis());
+                    if got.timestamp_millis() != want.timestamp_millis() || got.offset() != want.offset() { std::process::exit(3); }
+                }
+                Err(e) => println!("RESULT rfc3339 {text} -> rejected: {e}"),
+            }
+        }
+        // fixed-tz: raw bytes of the harness inputs ([d0,d1,d2,d3], neg) -> RFC 3339 text with that offset
+        "fixed-tz" => {
+            let d = unhex(&args[2]);
+            let neg = unhex(&args[3])[0] != 0;
+            let text = format!("2021-01-01T10:00:00{}{}{}:{}{}", if neg { '-' } else { '+' }, d[0] as char, d[1] as char, d[2] as char, d[3] as char);
+            match chrono::DateTime::parse_from_rfc3339(&text) {
+                Err(_) => println!("RESULT fixed-tz {text} is not an offset chrono accepts; not replayable"),
+                Ok(want) => match DateTime::parse_from_rfc3339(&text) {
+                    Ok(dt) => {
+                        let got = chrono::DateTime::parse_from_rfc3339(&dt.to_rfc3339()).expect("re-parse");
+                        println!("RESULT fixed-tz {text} -> {} (instant {} vs {})", dt.to_rfc3339(), got.timestamp_millis(), want.timestamp_millis());
+                        if got.timestamp_millis() != want.timestamp_millis() { std::process::exit(3); }
+                    }
+                    Err(e) => println!("RESULT fixed-tz {text} -> rejected: {e}"),
+                },
+            }
+        }
         // ---- C07: comparison kernel through the public filter API; args: hex of each kani::any() in harness order
         f if f.starts_with("filter-cmp:") => {
             use libhaystack::filter::*;
